@@ -1,10 +1,12 @@
 import Cinco.Drv.Wire
 import Cinco.Heap.Model
+import Cinco.Heap.Transfer
 /-
   Wire adapter for the C13 heap model: command "heap.run".
   TREE  = null | {"a":text} | {"l":[TREE,…]} | {"d":[[key,TREE],…]}
   FIELD = {"f":"leaf","disc":"alias"|"shallow"|"deep","default":TREE} | {"f":"sub","schema":n} | {"f":"cfglist","schema":n}
   PSTEP = "fieldname" | {"item":[fieldname, n]}
+  OP    = … | {"op":"transfer","cfg":i,"src":j,"path":[PSTEP…],"key":k,"mode":"revalidate"|"adopt"}   (Heap/Transfer.lean)
 -/
 namespace Cinco.Wire
 open Lean Cinco
@@ -87,6 +89,21 @@ def pathOfJ (j : Json) : R (List PStep) := do
   | none => pure []
   | _ => throw "bad path"
 
+/-- a transfer of the value under `key` from root `src` into the configuration at `path` below root `cfg` -/
+structure TransferReq where
+  i : Nat
+  j : Nat
+  path : List PStep
+  key : String
+  mode : TransferMode
+
+def transferOfJ (j : Json) : R TransferReq := do
+  let mode ← match (← fStr j "mode") with
+    | "revalidate" => pure TransferMode.revalidate
+    | "adopt" => pure TransferMode.adopt
+    | m => throw s!"unknown transfer mode {m}"
+  pure { i := ← natOfJ (← field j "cfg"), j := ← natOfJ (← field j "src"), path := ← pathOfJ j, key := ← fStr j "key", mode := mode }
+
 /-- an operation together with the root index it acts on (`none`: build the next root) -/
 def opOfJ (j : Json) : R (Option Nat × Op) := do
   match (← fStr j "op") with
@@ -123,13 +140,19 @@ end HeapW
 
 def heapRun (j : Json) : R Json := do
   let specs ← (← fArr j "schemas").mapM HeapW.schemaSpecOfJ
-  let ops ← (← fArr j "ops").mapM HeapW.opOfJ
+  let ops ← (← fArr j "ops").mapM (fun o => do
+    match fieldOpt o "op" with
+    | some (.str "transfer") => pure (Sum.inr (← HeapW.transferOfJ o))
+    | _ => pure (Sum.inl (← HeapW.opOfJ o)))
   let S := Heap.initS specs
-  let (_, outs) := ops.foldl (fun (acc : Heap.State × List Json) (p : Option Nat × Heap.Op) =>
-    let i := match p.1 with
-      | some i => i
-      | none => acc.1.roots.length
-    let r := Heap.step S acc.1 i p.2
+  let (_, outs) := ops.foldl (fun (acc : Heap.State × List Json) (p : Sum (Option Nat × Heap.Op) HeapW.TransferReq) =>
+    let r := match p with
+      | .inl p =>
+        let i := match p.1 with
+          | some i => i
+          | none => acc.1.roots.length
+        Heap.step S acc.1 i p.2
+      | .inr t => Heap.transfer S acc.1 t.i t.j t.path t.key t.mode
     (r.1, acc.2 ++ [HeapW.snapshot S r.1 r.2])) (Heap.init specs, [])
   pure (Json.mkObj [("steps", Json.arr outs.toArray)])
 
